@@ -389,8 +389,7 @@ func c02R2(c *Check, R *Roles) {
 		atoms := atomEnv{}
 		okHelpers := true
 		for _, a := range audCmp {
-			bo := a.(*ssa.BinOp)
-			g := bo.Parent()
+			g := a.(ssa.Instruction).Parent()
 			if g == fn {
 				atoms[a] = false
 				continue
@@ -790,6 +789,27 @@ func audienceComparisons(P *Program, R *Roles, fn *ssa.Function) []ssa.Value {
 				if (from(bo.X, isAud, g) && from(bo.Y, isCID, g)) || (from(bo.Y, isAud, g) && from(bo.X, isCID, g)) {
 					out = append(out, bo)
 				}
+			}
+		}
+		// the library form of the same comparison: slices.Contains(audience, client id) — element-wise ==
+		for _, ci := range allCalls(g) {
+			cc, ok := ci.(*ssa.Call)
+			if !ok || len(cc.Common().Args) != 2 {
+				continue
+			}
+			callee := cc.Common().StaticCallee()
+			if callee == nil {
+				continue
+			}
+			o := callee
+			if callee.Origin() != nil {
+				o = callee.Origin()
+			}
+			if o.Pkg == nil || o.Pkg.Pkg.Path() != "slices" || o.Name() != "Contains" {
+				continue
+			}
+			if from(cc.Common().Args[0], isAud, g) && from(cc.Common().Args[1], isCID, g) {
+				out = append(out, cc)
 			}
 		}
 	}
